@@ -113,6 +113,21 @@ def run():
             ego = f_bin.result()
         if nex < 100 or len(cases) - nex < 100:
             raise vf.NoVerdict("generator too weak: %d exhaustive, %d sampled cases" % (nex, len(cases) - nex))
+        # 3b. the specification itself is cross-checked against Go on the cases that are legal Go
+        #     (defer / panic / recover / loops / labels / calls): spec != Go is a spec bug, never a verdict
+        gl = [c for c in cases if egoctl.go_legal(c)]
+        gd = os.path.join(sd, "gox")
+        os.makedirs(gd)
+        open(os.path.join(gd, "main.go"), "w").write(egoctl.render(gl, lang="go"))
+        pg = vf.run([vf.GO, "run", "main.go"], cwd=gd, env=vf.goenv({"GOFLAGS": "-mod=mod"}), timeout=900)
+        gobs = egoctl.observe(pg.returncode, pg.stdout, pg.stderr, len(gl))
+        if pg.returncode != 0 or len(gobs) != len(gl):
+            raise vf.NoVerdict("Go cross-check did not run (rc=%s)\n%s" % (pg.returncode, pg.stderr[-2000:]))
+        for c, o in zip(gl, gobs):
+            if not egoctl.agree(c, o):
+                raise vf.NoVerdict("specification bug: for the Go-legal program [%s] EgoControl predicts %s/%s, Go prints %s/%s"
+                                   % (c["key"], c["out"], c["status"], o["out"], o["status"]))
+        chk.cov["spec_vs_go"] = "%d Go-legal cases: Go prints exactly what EgoControl predicts" % len(gl)
         # 4. R: run everything on the real interpreter
         rng = random.Random(vf.SEED)
         clean = [c for c in cases if not c["feat"]]
